@@ -68,6 +68,23 @@ impl CKBProtocolHandler for SyncProtocol {
         match message {
             packed::SyncMessageUnionReader::SendBlock(reader) => {
                 let new_block = reader.to_entity().block();
+                // The header of a matched block is proven, its body is not: only accept the
+                // transactions that the header commits to.
+                {
+                    let block_view = new_block.clone().into_view_without_reset_header();
+                    if block_view.calc_transactions_root() != block_view.transactions_root() {
+                        warn!(
+                            "SyncProtocol.received a block whose transactions do not match its header from Peer({})",
+                            peer
+                        );
+                        nc.ban_peer(
+                            peer,
+                            BAD_MESSAGE_BAN_TIME,
+                            String::from("send us a block with an invalid transactions root"),
+                        );
+                        return;
+                    }
+                }
                 let mut matched_blocks = self.peers.matched_blocks().write().expect("poisoned");
                 self.peers.add_block(&mut matched_blocks, new_block);
 
